@@ -368,6 +368,7 @@ pub(super) fn derive_schema(input: TokenStream) -> syn::Result<TokenStream> {
 
         } else {
             let mut variant_schemas = Vec::with_capacity(variants.len());
+            let mut has_untagged = container_attrs.serde.untagged;
             for v in variants {
                 let variant_attrs = VariantAttributes::new(&v.attrs)?;
 
@@ -391,6 +392,9 @@ pub(super) fn derive_schema(input: TokenStream) -> syn::Result<TokenStream> {
                 };
 
                 let is_unit = matches!(v.fields, Fields::Unit);
+                /* `#[serde(untagged)]` on a variant: this one is written as in an untagged enum */
+                let is_untagged = container_attrs.serde.untagged || variant_attrs.serde.untagged;
+                has_untagged |= is_untagged;
                 let is_newtype_of_option = matches!(&v.fields, Fields::Unnamed(u) if u.unnamed.len() == 1 && inner_Option(&u.unnamed[0].ty).is_some());
 
                 /* the fields of a variant are renamed by its own `rename_all`, else by `rename_all_fields` of the enum */
@@ -414,7 +418,7 @@ pub(super) fn derive_schema(input: TokenStream) -> syn::Result<TokenStream> {
                 schema = match (
                     &*container_attrs.serde.tag,
                     &*container_attrs.serde.content,
-                    container_attrs.serde.untagged
+                    is_untagged
                 ) {
                     (_, _, true) => {/* Untagged */
                         if is_unit {/* written as `null` */
@@ -478,7 +482,7 @@ pub(super) fn derive_schema(input: TokenStream) -> syn::Result<TokenStream> {
             }
 
             /* tags make the variants exclusive; without them a value can have the shape of several variants ( serde takes the first ) */
-            let one_of = if container_attrs.serde.untagged {quote! {anyOf}} else {quote! {oneOf}};
+            let one_of = if has_untagged {quote! {anyOf}} else {quote! {oneOf}};
 
             Ok(quote! {
                 ::ohkami::openapi::#one_of(
